@@ -15,7 +15,9 @@ import codecs
 from symx.core import Violation, chk
 
 NAME = "c16_streams"
-STUBS = [
+from symx.vloop import STUBS as LOOP_STUBS  # noqa: E402
+
+STUBS = LOOP_STUBS + [
     "wrapped stream = in-memory stub: 'obj' returns the prepared chunks as they are (ObjectReceiveStream[bytes]); "
     "'byte' is a ByteReceiveStream that honours max_bytes (returns a 1..max_bytes prefix of the next chunk, keeps the rest)",
 ]
@@ -34,6 +36,13 @@ def run(coro):
     except StopIteration as e:
         return e.value
     raise AssertionError("wrapped stub suspended")
+
+
+def run_on_loop(coro):
+    """the text wrappers may pass checkpoints of their own: they are driven on a (virtual) event loop"""
+    from symx.vloop import VLoop
+
+    return VLoop().run(coro, max_cycles=200)
 
 
 def _mk_stubs():
@@ -371,13 +380,17 @@ def text_receive(sym, cov, encoding, nchars):
     with sym.untraced():  # the real codec objects, not CrossHair's models of them
         r = TextReceiveStream(ObjSrc(chunks, []), encoding=encoding)
     out = []
-    while True:
-        try:
-            piece = run(r.receive())
-        except EndOfStream:
-            break
-        chk(piece != "", "text-receive-returned-empty-string")
-        out.append(piece)
+
+    async def drain():
+        while True:
+            try:
+                piece = await r.receive()
+            except EndOfStream:
+                break
+            out.append(piece)
+
+    run_on_loop(drain())
+    chk(all(piece != "" for piece in out), "text-receive-returned-empty-string")
     chk("".join(out) == want, "text-concatenation-differs", {"got": "".join(out), "want": want})
     # was a character split?
     bounds = set()
@@ -420,17 +433,23 @@ def text_roundtrip(sym, cov, encoding, nsends):
     sink = Sink()
     with sym.untraced():
         tx = TextSendStream(sink, encoding=encoding)
-    for st in strings:
-        run(tx.send(st))
-    chk(len(sink.items) == len(strings), "text-send-forwarded-wrong-number-of-chunks")
-    with sym.untraced():
-        rx = TextReceiveStream(ObjSrc([c for c in sink.items if c], []), encoding=encoding)
     out = []
-    while True:
-        try:
-            out.append(run(rx.receive()))
-        except EndOfStream:
-            break
+
+    async def roundtrip():
+        for st in strings:
+            await tx.send(st)
+        with sym.untraced():
+            rx = TextReceiveStream(ObjSrc([c for c in sink.items if c], []), encoding=encoding)
+        while True:
+            try:
+                out.append(await rx.receive())
+            except EndOfStream:
+                break
+
+    try:
+        run_on_loop(roundtrip())
+    except UnicodeError as e:
+        raise Violation("text-roundtrip-not-identity", {"sent": strings, "error": repr(e), "encoding": encoding})
     cov.hit("text:multi-send", sum(1 for st in strings if st) >= 2)
     chk("".join(out) == "".join(strings), "text-roundtrip-not-identity", {"sent": strings, "received": out, "encoding": encoding})
 
